@@ -40,7 +40,8 @@ SPECS = {
             {"component": "kb", "args": ["--focus", "c16"], "quick": 96, "thorough": 1600},
         ],
         "trusted_base": KB_TB,
-        "assumptions": ["the raw Entry API (AbsentEntry::insert, value_mut) bypasses the filters by its documentation and is excluded"],
+        "assumptions": ["the raw Entry API (AbsentEntry::insert, value_mut) bypasses the filters by its documentation and is excluded",
+                        "values are interned records: every value is offered for one key only (owner (vid v) = k, a record's node id is its key) and its /24 is a function of the record (vsub v = subof (vid v)); both are shown necessary for the model in Proofs/SubnetExamples.v"],
         "explanation": "subnet-count invariant of Model/KBucket.v with the IP filters over all operation lists + correspondence + direct recount monitor",
     },
     "C08": {
